@@ -165,6 +165,12 @@ func init() {
 			e.fr.tuples[x] = []Term{v, e.fresh("atoierr", "Int")}
 			return true
 		},
+		"(*go/ast.Ident).String": func(e *enc, x *ssa.Call, a []Term) bool {
+			// func (id *Ident) String() string: the name, "<nil>" for a nil identifier
+			hk := e.heapKey(x.Call.Args[0].Type().Underlying().(*types.Pointer).Elem())
+			e.fr.val[x] = e.define("identstr", "String", fmt.Sprintf("(ite (= %s 0) \"<nil>\" (T_ast_Ident.Name (select %s %s)))", a[0], e.mem[hk], a[0]))
+			return true
+		},
 		"reflect.TypeOf": func(e *enc, x *ssa.Call, a []Term) bool {
 			// nil for a nil interface value, otherwise a type descriptor determined by the dynamic type
 			r := e.define("rtype", "Int", fmt.Sprintf("(ite (= %s 0) 0 (+ 1 (abs (%s %s))))", a[0], e.fKind(), a[0]))
